@@ -272,7 +272,7 @@ func NewExec(prog *ssa.Program, solverBin string, timeoutMs int) *Exec {
 	return &Exec{prog: prog, tt: NewTermTable(), solver: NewSolver(solverBin, timeoutMs),
 		globals: map[*ssa.Global]*Value{}, pkgInit: map[*ssa.Package]bool{},
 		stubsHit: map[string]bool{}, funcsRun: map[*ssa.Function]bool{}, assumes: map[string]bool{},
-		methCache: map[methKey]*ssa.Function{}, maxSteps: 20_000_000, maxDec: 600}
+		methCache: map[methKey]*ssa.Function{}, maxSteps: 20_000_000, maxDec: 2000}
 }
 
 func (x *Exec) resetPath(decisions []uint64) {
